@@ -713,6 +713,25 @@ impl<'a, R: RealNumberInternalTrait> Interpreter<'a, R> {
     }
 }
 
+/// Verification hook (H2): read-only projection of the loader state (libraries currently
+/// marked as being imported, the import_end flag, names of registered factories).
+/// Compiled only with `--cfg ruschm_verif`.
+#[cfg(ruschm_verif)]
+impl<'a, R: RealNumberInternalTrait> Interpreter<'a, R> {
+    pub fn verif_loader_state(&self) -> (Vec<String>, bool, Vec<String>) {
+        let mut in_progress: Vec<String> =
+            self.imported_library.iter().map(|n| n.to_string()).collect();
+        in_progress.sort();
+        let mut factories: Vec<String> = self
+            .lib_loader
+            .iter_library_names()
+            .map(|n| n.to_string())
+            .collect();
+        factories.sort();
+        (in_progress, self.import_end, factories)
+    }
+}
+
 impl<'a, R: RealNumberInternalTrait> Default for Interpreter<'a, R> {
     fn default() -> Self {
         Self::with_environment(Rc::new(Environment::new()))
